@@ -28,6 +28,8 @@ type Case struct {
 	Items     []It    `json:"items"`
 	Width     float64 `json:"width"`
 	Looseness int     `json:"looseness"`
+	// Tunables holds the documented package-level parameters DemeritsLine, DemeritsFlagged, DemeritsFitness for this case (nil: defaults 10, 100, 100)
+	Tunables []float64 `json:"tunables,omitempty"`
 }
 
 func (c Case) items() []text.Item {
@@ -47,7 +49,10 @@ func (c Case) items() []text.Item {
 
 func genCase(t *rapid.T) Case {
 	var c Case
-	n := rapid.IntRange(1, 8).Draw(t, "nwords")
+	if rapid.Bool().Draw(t, "tuned") {
+		c.Tunables = []float64{[]float64{10, 1, 50}[rapid.IntRange(0, 2).Draw(t, "dline")], []float64{100, 0, 1000}[rapid.IntRange(0, 2).Draw(t, "dflag")], []float64{3000, 1000, 100, 0}[rapid.IntRange(0, 3).Draw(t, "dfit")]}
+	}
+	n := rapid.IntRange(1, 11).Draw(t, "nwords")
 	ragged := rapid.IntRange(0, 7).Draw(t, "ragged") == 0
 	frac := rapid.Bool().Draw(t, "frac") // fractional widths make exact threshold ties rare
 	fr := func() float64 {
@@ -252,6 +257,12 @@ func (o *lbOracle) brute(tol float64) bruteResult {
 }
 
 func checkCase(c Case, r *vf.R) error {
+	if len(c.Tunables) == 3 {
+		l, fl, fi := text.DemeritsLine, text.DemeritsFlagged, text.DemeritsFitness
+		text.DemeritsLine, text.DemeritsFlagged, text.DemeritsFitness = c.Tunables[0], c.Tunables[1], c.Tunables[2]
+		defer func() { text.DemeritsLine, text.DemeritsFlagged, text.DemeritsFitness = l, fl, fi }()
+		r.Class("non-default-tunables")
+	}
 	o := &lbOracle{items: c.Items, width: c.Width}
 	items := c.items()
 	orig := append([]text.Item(nil), items...)
@@ -369,5 +380,5 @@ func checkCase(c Case, r *vf.R) error {
 }
 
 func TestKP(t *testing.T) {
-	vf.Run(t, vf.Prop[Case]{Sub: "kp", Gen: genCase, Check: checkCase, Cases: vf.N(40000, 250000)})
+	vf.Run(t, vf.Prop[Case]{Sub: "kp", Gen: genCase, Check: checkCase, Cases: vf.N(100000, 400000)})
 }
